@@ -12,6 +12,8 @@
                       for FindSuccessors (cas.Proxy.Fetch / content.FetchAll): the reader is still open
                       (FetchAll's deferred Close follows).  A read error while a destination Push / Mount
                       consumes the stream is reported by that operation (PuX / MtX, nothing stored)
+     FSX n            the FindSuccessors callback of CopyGraphOptions failed for n: before it fetched anything
+                      (the node still waits for its proxy fetch) or after (successors known, none dispatched)
      PuX n ref stored dst.Push / PushReference(n) returned an error; stored = the content was
                       stored before the error was returned (fault AFTER the side effect)
      MtX n stored     dst.Mount(n) (registry.Mounter, one candidate repository) returned an error, either
@@ -57,6 +59,7 @@ Inductive fevent :=
 | ExX (n : node)
 | SFX (n : node)
 | SRX (n : node)
+| FSX (n : node)
 | PuX (n : node) (ref stored : bool)
 | TagX (n : node) (set : bool)
 | MtX (n : node) (stored : bool)
@@ -150,6 +153,11 @@ Definition fstep (g : graph) (c : cfg) (ext : bool) (fs : fstate) (fe : fevent) 
         | MF2 => Some (mkF (set_ph st n Dead) (f_cancelled fs) (f_aborted fs) true (n :: f_rd fs))
         | _ => None
         end
+    | FSX n =>
+        match ph st n with
+        | NeedFetch | Waiting => if on_virtual c ext (ExB n) then None else Some (with_base fs (set_ph st n Dead))
+        | _ => None
+        end
     | PuX n ref stored =>
         if negb (Bool.eqb ref (root_refpush c n)) then None else
         match ph st n with
@@ -198,7 +206,7 @@ Definition faccepts (g : graph) (c : cfg) (ext : bool) (d0 : list node) (tr : li
 (* the events the property calls faults *)
 Definition is_fault (fe : fevent) : bool :=
   match fe with
-  | Ev (CbFail _ _) | ExX _ | SFX _ | SRX _ | PuX _ _ _ | TagX _ _ | MtX _ _ | ProX | Cancel => true
+  | Ev (CbFail _ _) | ExX _ | SFX _ | SRX _ | FSX _ | PuX _ _ _ | TagX _ _ | MtX _ _ | ProX | Cancel => true
   | _ => false
   end.
 
